@@ -155,6 +155,22 @@ theorem source_shape_height_writers :
        "search_routines.py:RowWiseModifiedBisectionSearch.initialize_ghe:self.borehole.H"] := by
   decide
 
+/-- The component objects captured by `set_design` (SimulationParameters, Pipe, Grout, Soil, fluid,
+    geometric constraints, and the borehole apart from `H`) are never written: the only attribute
+    writes on such objects are the five in `equivalent_single_u_tube` /
+    `match_effective_borehole_resistance`, which act on the deep copies and the new `Pipe` created
+    there.  This is why `Static`, `SimParams`, `Geom` are plain values in the model and
+    `slots_after_history` holds; a write such as `self.sim_params.max_boreholes = …` inside a search
+    (seeded change C13-w2m2) breaks this theorem. -/
+theorem source_shape_components_readonly :
+    Gen.Api.componentWriters =
+      ["borehole_heat_exchangers.py:GHEDesignerBoreholeWithMultiplePipes.equivalent_single_u_tube:_borehole.r_b",
+       "borehole_heat_exchangers.py:GHEDesignerBoreholeWithMultiplePipes.equivalent_single_u_tube:_borehole.r_b",
+       "borehole_heat_exchangers.py:GHEDesignerBoreholeWithMultiplePipes.equivalent_single_u_tube.objective_pipe_conductivity:eq_single_u_tube.pipe.k",
+       "borehole_heat_exchangers.py:GHEDesignerBoreholeWithMultiplePipes.match_effective_borehole_resistance:preliminary_new_single_u_tube.grout.k",
+       "borehole_heat_exchangers.py:GHEDesignerBoreholeWithMultiplePipes.match_effective_borehole_resistance.objective_resistance:preliminary_new_single_u_tube.grout.k"] := by
+  decide
+
 def snapshotArgs : List String :=
   ["flow_rate", "self._borehole", "self.pipe_type", "self._fluid", "self._pipe", "self._grout", "self._soil",
    "self._simulation_parameters", "self._geometric_constraints", "self._ground_loads", "flow_type=flow_type",
@@ -299,6 +315,19 @@ example :
     (design K0 cfg0).toOption.map (fun r => (r.field, r.H)) = some (5, 465 / 4) ∧
     resultOf (runOps K0 (hist0 ++ [.setDesign 0 (1 / 2) .borehole, .findDesign 0]) {}) 0 = (design K0 cfg0).toOption ∧
     resultOf (runOps K0 (hist1 ++ [.setDesign 1 (1 / 2) .borehole, .findDesign 1]) {}) 1 = (design K0 cfg0).toOption := by
+  decide +kernel
+
+/-- A re-used manager: after a complete design only the loads and the geometry are set again
+    (simulation parameters, borehole, pipe, fluid, grout, soil untouched); `set_design; find_design`
+    gives the design of the final slots, as on a new manager (non-vacuity of `find_design_pure` for
+    this history shape; a search that wrote into the shared SimulationParameters object would break it). -/
+example :
+    (lastSlots K0 0 (hist0 ++ [.setDesign 0 (1 / 2) .borehole, .findDesign 0, .setLoads 0 { tok := "big", len := 8760 },
+        .setGeom 0 { kind := .nearSquare, tok := "large lot" }]) (0, {})).2.config? (1 / 2) .borehole [true, false] =
+      some { cfg0 with st := { st0 with loads := { tok := "big", len := 8760 } }, geom := { kind := .nearSquare, tok := "large lot" } } ∧
+    resultOf (runOps K0 (hist0 ++ [.setDesign 0 (1 / 2) .borehole, .findDesign 0, .setLoads 0 { tok := "big", len := 8760 },
+        .setGeom 0 { kind := .nearSquare, tok := "large lot" }, .setDesign 0 (1 / 2) .borehole, .findDesign 0]) {}) 0 =
+      (design K0 { cfg0 with st := { st0 with loads := { tok := "big", len := 8760 } }, geom := { kind := .nearSquare, tok := "large lot" } }).toOption := by
   decide +kernel
 
 /-- The search routine of `K0` is `Safe` from every non-zero height (and the hypothesis is needed:
